@@ -59,6 +59,10 @@ class C09Prop(NlpProp):
             # (ocp.set_value(horzcat(A, B, ...), horzcat(VA, VB, ...)), matrices included)
             if i % 3 == 1:
                 c["param_cat"] = True
+            # every fifth case declares its parameters and variables through register_parameter([sym], ...) /
+            # register_variable([sym], ...)
+            if i % 5 == 2:
+                c["register_list"] = True
         return out
 
     def run(self, tier="quick", seed=0, jobs=16):
